@@ -231,8 +231,18 @@ def run_requests(binary, lines, workdir, tag, timeout=3600, env=None):
         for l in lines:
             f.write(l + "\n")
     outp = os.path.join(workdir, f"{tag}.out")
-    with open(req, "rb") as fin, open(outp, "wb") as fout:
-        p = subprocess.run([binary], stdin=fin, stdout=fout, stderr=subprocess.PIPE, timeout=timeout, env=env)
+    if os.path.exists(outp):
+        os.remove(outp)
+    if os.path.basename(binary).startswith("wvh"):
+        # the harness writes replies to --out; wellen's own prints go to stdout and are discarded
+        with open(req, "rb") as fin:
+            p = subprocess.run([binary, "--out", outp], stdin=fin, stdout=subprocess.DEVNULL,
+                               stderr=subprocess.PIPE, timeout=timeout, env=env)
+    else:
+        with open(req, "rb") as fin, open(outp, "wb") as fout:
+            p = subprocess.run([binary], stdin=fin, stdout=fout, stderr=subprocess.PIPE, timeout=timeout, env=env)
+    if not os.path.exists(outp):
+        open(outp, "w").close()
     out = open(outp, "r", errors="replace").read().split("\n")
     if out and out[-1] == "":
         out.pop()
